@@ -1303,6 +1303,12 @@ PPL::Polyhedron::OK(bool check_not_empty) const {
 
 void
 PPL::Polyhedron::add_constraint(const Constraint& c) {
+  // Dimension-compatibility check:
+  // the dimension of `c' can not be greater than space_dim.
+  if (space_dim < c.space_dimension()) {
+    throw_dimension_incompatible("add_constraint(c)", "c", c);
+  }
+
   // Topology-compatibility check.
   if (c.is_strict_inequality() && is_necessarily_closed()) {
     // Trivially true/false strict inequalities are legal.
@@ -1315,12 +1321,6 @@ PPL::Polyhedron::add_constraint(const Constraint& c) {
     }
     // Here c is a non-trivial strict inequality.
     throw_topology_incompatible("add_constraint(c)", "c", c);
-  }
-
-  // Dimension-compatibility check:
-  // the dimension of `c' can not be greater than space_dim.
-  if (space_dim < c.space_dimension()) {
-    throw_dimension_incompatible("add_constraint(c)", "c", c);
   }
 
   if (!marked_empty()) {
@@ -1524,6 +1524,13 @@ PPL::Polyhedron::add_generator(const Generator& g) {
 
 void
 PPL::Polyhedron::add_recycled_constraints(Constraint_System& cs) {
+  // Dimension-compatibility check:
+  // the dimension of `cs' can not be greater than space_dim.
+  const dimension_type cs_space_dim = cs.space_dimension();
+  if (space_dim < cs_space_dim) {
+    throw_dimension_incompatible("add_recycled_constraints(cs)", "cs", cs);
+  }
+
   // Topology compatibility check.
   if (is_necessarily_closed() && cs.has_strict_inequalities()) {
     // We check if _all_ strict inequalities in cs are trivially false.
@@ -1541,12 +1548,6 @@ PPL::Polyhedron::add_recycled_constraints(Constraint_System& cs) {
     return;
   }
 
-  // Dimension-compatibility check:
-  // the dimension of `cs' can not be greater than space_dim.
-  const dimension_type cs_space_dim = cs.space_dimension();
-  if (space_dim < cs_space_dim) {
-    throw_dimension_incompatible("add_recycled_constraints(cs)", "cs", cs);
-  }
   // Adding no constraints is a no-op.
   if (cs.has_no_rows()) {
     return;
